@@ -83,6 +83,43 @@ type Server struct {
 	Host string
 	srv  *http.Server
 	ln   net.Listener
+
+	mu    sync.Mutex
+	socks map[*websocket.Conn]struct{}
+	dead  bool
+}
+
+func (s *Server) track(c *websocket.Conn) bool {
+	s.mu.Lock()
+	defer s.mu.Unlock()
+	if s.dead {
+		return false
+	}
+	s.socks[c] = struct{}{}
+	return true
+}
+
+func (s *Server) untrack(c *websocket.Conn) {
+	s.mu.Lock()
+	delete(s.socks, c)
+	s.mu.Unlock()
+}
+
+// Kill makes the front door die the hard way: the listener goes away and every
+// open socket is dropped without a closing handshake, as when the proxy
+// process is killed.
+func (s *Server) Kill() {
+	s.mu.Lock()
+	s.dead = true
+	var all []*websocket.Conn
+	for c := range s.socks {
+		all = append(all, c)
+	}
+	s.mu.Unlock()
+	s.srv.Close()
+	for _, c := range all {
+		c.CloseNow()
+	}
 }
 
 type namer string
@@ -99,12 +136,18 @@ func Serve(r *relay.Relay, who string) (*Server, error) {
 	tag := func(ctx context.Context) context.Context {
 		return context.WithValue(ctx, mailbox.VerifWhoKey{}, namer(who))
 	}
+	s := &Server{Host: ln.Addr().String(), ln: ln, socks: map[*websocket.Conn]struct{}{}}
 	mux := http.NewServeMux()
 	mux.HandleFunc("/v1/lightning-node-connect/hashmail/receive", func(w http.ResponseWriter, q *http.Request) {
 		c, err := websocket.Accept(w, q, nil)
 		if err != nil {
 			return
 		}
+		if !s.track(c) {
+			c.CloseNow()
+			return
+		}
+		defer s.untrack(c)
 		c.SetReadLimit(1 << 20)
 		ctx, cancel := context.WithCancel(tag(q.Context()))
 		defer cancel()
@@ -154,6 +197,11 @@ func Serve(r *relay.Relay, who string) (*Server, error) {
 		if err != nil {
 			return
 		}
+		if !s.track(c) {
+			c.CloseNow()
+			return
+		}
+		defer s.untrack(c)
 		c.SetReadLimit(1 << 20)
 		ctx, cancel := context.WithCancel(tag(q.Context()))
 		defer cancel()
@@ -179,7 +227,7 @@ func Serve(r *relay.Relay, who string) (*Server, error) {
 			}
 		}
 	})
-	s := &Server{Host: ln.Addr().String(), ln: ln, srv: &http.Server{Handler: mux}}
+	s.srv = &http.Server{Handler: mux}
 	go s.srv.Serve(ln)
 	return s, nil
 }
